@@ -39,4 +39,16 @@ print(f"cross-process {prop}: {n-bad}/{n} seeds identical across GOMAXPROCS 1/4/
 sys.exit(1 if bad else 0)
 PY
 done
+# (c) the controlled race lane: same proof with the spin baton in the -race binary (fewer seeds: it is slow)
+"$VERIF/sim/prepare.sh" "$S" race >/dev/null 2>&1 || exit 2
+for PROP in C11 C20; do
+  for ((seed=1; seed<=6; seed++)); do
+    GORACE="halt_on_error=1 exitcode=66" "$S/bin/harness-race" determinism -spin -prop $PROP -seed $seed -runs 12 -fixtures /repo/trie/testdata > "$S/out/detspin-$PROP-$seed.log" 2>&1 &
+  done
+  wait
+  grep -h DIVERGENCE "$S"/out/detspin-$PROP-*.log | head -5
+  N=$(grep -l " 0 divergences" "$S"/out/detspin-$PROP-*.log | wc -l)
+  echo "controlled race lane $PROP: $N/6 seeds without divergence (12 runs each: twice from the seed + once from the recorded schedule)"
+  [ "$N" -eq 6 ] || BAD=1
+done
 [ $BAD -eq 0 ] && echo "DETERMINISM OK" || { echo "DETERMINISM FAILED"; exit 2; }
